@@ -528,7 +528,7 @@ class ModelLoader(xtuml.ModelLoader):
                 for zipinfo in zipinput.filelist:
                     if zipinfo.filename.endswith('.xtuml'):
                         with zipinput.open(zipinfo) as f:
-                            xtuml.ModelLoader.file_input(self, io.TextIOWrapper(f, encoding='UTF-8'))
+                            xtuml.ModelLoader.file_input(self, io.TextIOWrapper(f, encoding='UTF-8', newline=''))
         else:
             xtuml.ModelLoader.filename_input(self, path_or_filename)
 
